@@ -93,27 +93,40 @@ def report(pids):
         objs[0:1] = []  # first object is positional
         p = subprocess.run([TOOLS + "/llvm-cov", "export", "-format=lcov", "-instr-profile", prof] + objs + ["-ignore-filename-regex", r"(\.cargo|rustc|/verif/)"],
                            stdout=subprocess.PIPE, stderr=subprocess.DEVNULL, text=True)
-        files, cur = {}, None
+        lines, cur = {}, None
         for l in p.stdout.splitlines():
             if l.startswith("SF:"):
                 cur = l[3:]
-                files.setdefault(cur, {})
-            elif l.startswith("FNDA:") and cur:
-                cnt, name = l[5:].split(",", 1)
-                d = demangle(name)
-                d = re.sub(r"::h[0-9a-f]{16}$", "", d)
-                files[cur][d] = max(files[cur].get(d, 0), int(cnt))
+                lines.setdefault(cur, {})
+            elif l.startswith("DA:") and cur:
+                ln, cnt = l[3:].split(",")[:2]
+                lines[cur][int(ln)] = max(lines[cur].get(int(ln), 0), int(cnt))
         print("=" * 30, pid, props[pid]["title"])
         for a in props[pid]["anchors"]["files"]:
             f = "/repo/" + a
-            fn = files.get(f)
-            if fn is None:
+            da = lines.get(f)
+            if da is None:
                 print("  %-45s NOT IN THE BINARY'S COVERAGE MAP" % a)
                 continue
-            zero = sorted(k for k, v in fn.items() if v == 0 and "{{closure}}" not in k and "::fmt" not in k and "test" not in k)
-            print("  %-45s %d/%d functions executed" % (a, len([1 for v in fn.values() if v > 0]), len(fn)))
-            for z in zero:
-                print("        never: " + z[-110:])
+            src = open(f).read().splitlines()
+            fns = []
+            for i, t in enumerate(src, 1):
+                if re.match(r"\s*(#\[cfg\(test\)\]|mod tests? \{)", t):
+                    break
+                m = re.match(r"\s*(pub(\([a-z:]+\))?\s+)?(const\s+)?(unsafe\s+)?fn\s+(\w+)", t)
+                if m:
+                    fns.append((i, m.group(5)))
+            never, n_exec = [], 0
+            for k, (ln, name) in enumerate(fns):
+                hi = fns[k + 1][0] if k + 1 < len(fns) else len(src) + 1
+                inst = [da[x] for x in range(ln, hi) if x in da]
+                if not inst:
+                    continue
+                if any(c > 0 for c in inst):
+                    n_exec += 1
+                else:
+                    never.append("%s:%d" % (name, ln))
+            print("  %-45s %d functions executed, never: %s" % (a, n_exec, ", ".join(never) if never else "-"))
 
 
 if __name__ == "__main__":
